@@ -869,8 +869,14 @@ impl<'a, 'e> Translator<'a, 'e> {
                             (Pattern::Ident(id), Expr::Ident(expr_id, _))
                                 if !expr_id.name.is_global() =>
                             {
-                                self.ident_replacments
-                                    .insert(id.name.clone(), expr_id.name.clone());
+                                // `x` may itself be a binder that was replaced earlier
+                                // (`match e with | x -> match x with | y -> y`)
+                                let target = self
+                                    .ident_replacments
+                                    .get(&expr_id.name)
+                                    .cloned()
+                                    .unwrap_or_else(|| expr_id.name.clone());
+                                self.ident_replacments.insert(id.name.clone(), target);
 
                                 let expr = alts[0].expr;
                                 return Some(self.visit_expr(expr).unwrap_or(expr));
